@@ -138,7 +138,7 @@ func RunC16Diff(p *Plan, env *Env) *RunResult {
 	for i := 0; i < n; i++ {
 		if a.Trace[i] != b.Trace[i] {
 			res.Violations = append(res.Violations, &Violation{Prop: "C16", Oracle: "O-same", StmtIdx: i,
-				Features: map[string]string{"how": "outcome-differs", "stmt": p.Stmts[i].Kind},
+				Features: map[string]string{"how": "outcome-differs", "stmt": p.Stmts[i].Kind, "headroom": headroom(small.Knobs)},
 				Detail:   fmt.Sprintf("statement %d (%s) under cache capacity %d: %s; under the default cache: %s", i, describe(&p.Stmts[i]), small.Knobs.CacheCap, b.Trace[i], a.Trace[i])})
 			return res
 		}
@@ -256,4 +256,16 @@ func RunLRUDrive(seed uint64, thorough bool, env *Env) *RunResult {
 	res.addStats(w.Stats)
 	res.EventHash = fmt.Sprintf("%016x", uint64(w.Hash))
 	return res
+}
+
+// headroom classifies how close to full of dirty pages the small cache was allowed to get.
+func headroom(k Knobs) string {
+	m := k.FlushMargin
+	if m <= 0 {
+		m = 10
+	}
+	if m < 6 {
+		return "lt6"
+	}
+	return "ge6"
 }
